@@ -1,14 +1,15 @@
 -------------------------- MODULE QueueEventsTrace --------------------------
 EXTENDS QueueEvents, TraceIO
+CONSTANT CheckArgs   \* TRUE: the kwarg a seen by a queue-event handler is compared (C01); FALSE: not judged (C02)
 VARIABLES tid, l
 tvars == <<vars, tid, l>>
 TL == TraceLines[tid].ev
 TInit == /\ tid \in 1..Len(TraceLines) /\ l = 1 /\ Init
 Step(e) ==
-    \/ e.op = "qadd" /\ AddQ(e.h, e.ev, e.prio)
+    \/ e.op = "qadd" /\ AddQ(e.h, e.ev, e.prio, e.hk, e.cond)
     \/ e.op = "qremove" /\ RemoveQ(e.h)
-    \/ e.op = "qpost" /\ PostQ(e.ev)
-    \/ e.op = "qinvoke" /\ QInvoke(e.k, e.h)
+    \/ e.op = "qpost" /\ PostQ(e.ev, e.c)
+    \/ e.op = "qinvoke" /\ QInvoke(e.k, e.h) /\ (CheckArgs => e.a = act'.a)
     \/ e.op = "wait" /\ Wait /\ inh = <<e.k, e.h>>
     \/ e.op = "qret" /\ QRet
     \/ e.op = "clear" /\ Clear(e.k, e.h)
